@@ -8,6 +8,7 @@ R15.4 the template's alpha_n, Psi_n, sound speeds are the Thermodynamics definit
 R15.5 the template's closed forms are mutually consistent: getVp solves the alpha(v+, v-) relation used by the shooting,
       _findTm is energy-flux conservation with w ~ T^mu / T^nu, T+ = Tn w+^(1/mu)
 R15.6 the manager uses the template model only to size the phase-tracing range
+R15.7 both solvers are dimensionally homogeneous in Tnucl (dimension inference shared with C07)
 """
 from __future__ import annotations
 
@@ -125,7 +126,25 @@ def r15_5(chk: Check):
     wm_e = exx.expr(d["wm"], dict(envx, wp=exx.sym("wp"))) if "wm" in d else None
     ok2 = wm_e is not None and is_zero(wm_e - exx.sym("wp") * exx.sym("vp") / (1 - exx.sym("vp") ** 2) * (1 - exx.sym("vm") ** 2) / exx.sym("vm"))[0]
     chk.ob("R15.5", fe.where(), "efficiencyFactor: w+ = (T+/Tn)^mu and w- = w+ gamma+^2 v+ / (gamma-^2 v-) (energy flux)", bool(ok1 and ok2), key="kappa-enthalpies")
-    chk.floor("R15.5", 9)
+    # bracket trimming in findMatching: the v+ at which the template enthalpy w+(alpha+) changes sign solves (1 - 3 alpha+(v+, v-)) mu = nu
+    ff = S.func(f"{TM}.findMatching")
+    exf = hydro_extractor(S, positive={"self.mu", "self.nu", "vm"})
+    d_ = {}
+    for st in sorted([x for x in ast.walk(ff.node) if isinstance(x, ast.Assign) and isinstance(x.targets[0], ast.Name)], key=lambda s_: s_.lineno):
+        d_.setdefault(st.targets[0].id, st.value)
+    okw = None
+    howw = "vpSignChangeWp / sqrtDisc not found"
+    if "vpSignChangeWp" in d_ and "sqrtDisc" in d_:
+        envf = {"__module__": "hydrodynamicsTemplateModel", "__class__": "HydrodynamicsTemplateModel"}
+        disc = exf.expr(d_["sqrtDisc"], dict(envf))
+        vps = exf.expr(d_["vpSignChangeWp"], dict(envf, sqrtDisc=disc))
+        mu_, nu_, vmm = exf.sym("self.mu"), exf.sym("self.nu"), exf.sym("vm")
+        cb2_ = 1 / (nu_ - 1)
+        alp = (vps / vmm - 1) * (vps * vmm / cb2_ - 1) / (1 - vps**2) / 3
+        okw, howw = is_zero(sp.simplify((1 - 3 * alp) * mu_ - nu_), chk.seed, ranges={vmm: (0, 1), mu_: (4, 5), nu_: (4, 5)})
+    chk.ob("R15.5", ff.where(), "findMatching: the bracket cut `vpSignChangeWp` is the v+ where the template enthalpy changes sign, i.e. it solves "
+           "(1 - 3 alpha+(v+, v-)) mu == nu with cb^2 = 1/(nu - 1)", okw, howw, key="wp-sign-change", how=howw)
+    chk.floor("R15.5", 10)
 
 
 def r15_6(chk: Check):
@@ -164,6 +183,25 @@ def rules(chk: Check) -> None:
     r15_4(chk)
     r15_5(chk)
     r15_6(chk)
+    # both solvers are dimensionally homogeneous in the nucleation temperature (agreement 'for every Tn over five decades')
+    from ..dimtable import TABLE
+    from ..kinds import KindInference
+    K = KindInference(chk.src, TABLE)
+    bad = []
+    nfun = 0
+    for m_ in ("hydrodynamics", "hydrodynamicsTemplateModel"):
+        for fi in chk.src.module(m_).funcs.values():
+            if fi.parent is None:
+                b0 = len(K.reports)
+                K.analyse(fi)
+                nfun += 1
+                for r_ in K.reports[b0:]:
+                    if r_.kind in ("conflict", "sink", "transcendental"):
+                        bad.append((fi, r_))
+    chk.ob("R15.7", "src/WallGo/hydrodynamics.py", f"both hydrodynamics classes are dimensionally homogeneous ({K.typed_nodes} typed expression nodes in {nfun} "
+           "functions): every temperature bound scales with Tnucl, so agreement at one Tn carries over to all", not bad,
+           "; ".join(f"{fi.qual} line {getattr(r_.node, 'lineno', '?')}: {r_.text}" for fi, r_ in bad)[:400], key="homogeneous-in-Tn")
+    chk.floor("R15.7", 1)
     chk.floor("R15.1", 7)
     chk.floor("R15.2", 17)
     chk.floor("R15.3", 12)
